@@ -64,7 +64,7 @@ def run_sweep(case: Dict[str, Any]) -> Dict[str, Any]:
         # link table the vehicles drive on (incl. links without a speed, which get network.default_speed_kmph)
         adj = {}
         for l in links:
-            a, b = (int(x) for x in l.link_id.split("-"))
+            a, b = (int(x) for x in l.link_id.split("-")[:2])
             adj.setdefault(a, {})[b] = l.distance_km / l.speed_kmph * 3600.0
         cnt["c14_links_with_default_speed"] = sum(1 for u, v, d in G_edges_missing_speed(case["net"]))
         if case["net"].get("parallel"):
@@ -85,7 +85,7 @@ def run_sweep(case: Dict[str, Any]) -> Dict[str, Any]:
     by_tail: Dict[int, list] = collections.defaultdict(list)  # links leaving node
     by_head: Dict[int, list] = collections.defaultdict(list)  # links entering node
     for l in links:
-        a, b = (int(x) for x in l.link_id.split("-"))
+        a, b = (int(x) for x in l.link_id.split("-")[:2])
         by_tail[a].append(l)
         by_head[b].append(l)
     nodes = sorted(rn.graph.nodes())
@@ -171,7 +171,7 @@ def run_instr(case: Dict[str, Any]) -> Dict[str, Any]:
         links = sorted(rn.link_helper.links.values(), key=lambda l: l.link_id)
         adj_t, adj_d = {}, {}
         for l in links:
-            a, b = (int(x) for x in l.link_id.split("-"))
+            a, b = (int(x) for x in l.link_id.split("-")[:2])
             adj_t.setdefault(a, {})[b] = l.distance_km / l.speed_kmph * 3600.0
             adj_d.setdefault(a, {})[b] = l.distance_km
         ct, cd = {}, {}
